@@ -122,6 +122,17 @@ fn derived(s: &SeqParameterSet, out: &mut Vec<String>) {
     out.push(format!("wmbs={}", gs(|| s.pic_width_in_mbs().to_string())));
     out.push(format!("hmu={}", gs(|| s.pic_height_in_map_units().to_string())));
     out.push(format!("psmu={}", gs(|| s.pic_size_in_map_units().to_string())));
+    // AspectRatioInfo::get(): the sample aspect ratio of Table E-1
+    out.push(format!(
+        "sar={}",
+        gs(|| match s.vui_parameters.as_ref().and_then(|v| v.aspect_ratio_info.as_ref()) {
+            None => "-".to_string(),
+            Some(a) => match a.get() {
+                Some((w, h)) => format!("{}:{}", w, h),
+                None => "None".to_string(),
+            },
+        })
+    ));
 }
 
 fn cmd_sps(args: &[&str], out: &mut Vec<String>) {
@@ -231,6 +242,17 @@ fn cmd_sei(args: &[&str], out: &mut Vec<String>) {
     }
 }
 
+/// seibig <pre-hex> <n> <post-hex> <extra>: SEI RBSP = pre ++ 0xFF x n ++ post, built here so that the 2^32
+/// overflow of a type / size coded with > 16 million 0xFF bytes can be exercised without a 33 MB input line.
+fn cmd_seibig(args: &[&str], out: &mut Vec<String>) {
+    let mut b = unhex(args[0]);
+    let n: usize = args[1].parse().unwrap();
+    b.extend(std::iter::repeat(0xffu8).take(n));
+    b.extend(unhex(args[2]));
+    let extra: usize = args.get(3).map(|s| s.parse().unwrap()).unwrap_or(2);
+    run_sei(&b[..], extra, out);
+}
+
 fn cmd_bp(args: &[&str], out: &mut Vec<String>) {
     let ctx = build_ctx(args[0]);
     let payload = unhex(args.get(1).copied().unwrap_or("-"));
@@ -255,7 +277,19 @@ fn cmd_pt(args: &[&str], out: &mut Vec<String>) {
     };
     let msg = SeiMessage { payload_type: HeaderType::PicTiming, payload: &payload };
     match PicTiming::read(sps, &msg) {
-        Ok(v) => out.push(format!("ok:{}", canon(&v))),
+        Ok(v) => {
+            out.push(format!("ok:{}", canon(&v)));
+            // the SecMinHour accessors
+            if let Some(ps) = v.pic_struct.as_ref() {
+                let acc: Vec<String> = ps
+                    .clock_timestamps
+                    .iter()
+                    .flatten()
+                    .map(|c| format!("{}/{}/{}", c.smh.seconds(), c.smh.minutes(), c.smh.hours()))
+                    .collect();
+                out.push(format!("smh=[{}]", acc.join(",")));
+            }
+        }
         Err(PicTimingError::RbspError(b)) => out.push(format!("E:RbspError({})", biterr(&b))),
         Err(e) => out.push(format!("E:{}", canon(&e))),
     }
@@ -365,6 +399,7 @@ pub fn dispatch(cmd: &str, args: &[&str], out: &mut Vec<String>) {
         "sei" => cmd_sei(args, out),
         "bp" => cmd_bp(args, out),
         "pt" => cmd_pt(args, out),
+        "seibig" => cmd_seibig(args, out),
         "t35" => cmd_t35(args, out),
         "avcc" => cmd_avcc(args, out),
         "ctx" => cmd_ctx(args, out),
